@@ -1,0 +1,64 @@
+//! Pass-through wrappers used by external verification tooling.
+//!
+//! Compiled only with the cargo feature `verif`. Nothing here has behaviour of its own:
+//! every function forwards to the private item it names.
+
+use crate::error::AnyResult;
+use crate::transactions::{RepLog, StorageTransaction};
+use cosmwasm_std::{Order, Record, Storage};
+
+/// Forwards to the private `transactions::transactional` helper.
+pub fn transactional<F, T>(base: &mut dyn Storage, action: F) -> AnyResult<T>
+where
+    F: FnOnce(&mut dyn Storage, &dyn Storage) -> AnyResult<T>,
+{
+    crate::transactions::transactional(base, action)
+}
+
+/// Thin wrapper around the private write cache `transactions::StorageTransaction`.
+pub struct Cache<'a>(StorageTransaction<'a>);
+
+impl<'a> Cache<'a> {
+    /// Forwards to `StorageTransaction::new`.
+    pub fn new(storage: &'a dyn Storage) -> Self {
+        Cache(StorageTransaction::new(storage))
+    }
+
+    /// Forwards to `StorageTransaction::prepare`.
+    pub fn prepare(self) -> Prepared {
+        Prepared(self.0.prepare())
+    }
+}
+
+/// Thin wrapper around the private `transactions::RepLog`.
+pub struct Prepared(RepLog);
+
+impl Prepared {
+    /// Forwards to `RepLog::commit`.
+    pub fn commit(self, storage: &mut dyn Storage) {
+        self.0.commit(storage)
+    }
+}
+
+impl Storage for Cache<'_> {
+    fn get(&self, key: &[u8]) -> Option<Vec<u8>> {
+        self.0.get(key)
+    }
+
+    fn range<'b>(
+        &'b self,
+        start: Option<&[u8]>,
+        end: Option<&[u8]>,
+        order: Order,
+    ) -> Box<dyn Iterator<Item = Record> + 'b> {
+        self.0.range(start, end, order)
+    }
+
+    fn set(&mut self, key: &[u8], value: &[u8]) {
+        self.0.set(key, value)
+    }
+
+    fn remove(&mut self, key: &[u8]) {
+        self.0.remove(key)
+    }
+}
